@@ -56,10 +56,11 @@ static InvResult run_cli(bool yarac, const std::vector<std::string>& argv, uint6
 static const char* RULESETS[] = {
   "rule t_alpha : tagA tagB { meta: author = \"x\" n = 3 ok = true strings: $a = \"alpha_text\" $b = /reg[0-9]+ex/ $w = \"widestr\" wide condition: any of them }\n"
   "rule t_xor : tagB { strings: $x = \"xorsecret\" xor(1-255) condition: $x }\n"
+  "rule t_fib { strings: $f = /x(a{1,3}){1,400}y/ condition: $f }\nrule t_big { condition: ext_big > 4294967296 }\n"
   "rule t_mz { condition: uint16(0) == 0x5a4d }\nrule t_ext { condition: ext_i == 7 }\nrule t_small : tagA { condition: filesize < 100 }\nprivate rule t_priv { condition: true }\nrule t_dep { condition: t_priv and filesize > 5 }\n",
   "import \"pe\"\nimport \"elf\"\nglobal rule g_nonempty { condition: filesize > 0 }\n"
   "rule m_pe : bin { condition: pe.number_of_sections > 0 }\nrule m_elf : bin { condition: elf.type == elf.ET_DYN or elf.type == elf.ET_EXEC }\n"
-  "rule m_many : text { strings: $a = \"ab\" $h = { 61 62 ?? 61 } condition: #a > 2 or $h }\nrule m_ext : text { condition: ext_i == 7 and ext_s contains \"ne\" }\n",
+  "rule m_many : text { strings: $a = \"ab\" $h = { 61 62 ?? 61 } condition: #a > 2 or $h }\nrule m_ext : text { condition: ext_i == 7 and ext_s contains \"ne\" and ext_big != 5 }\n",
 };
 static const int NRULESETS = 2;
 
@@ -70,7 +71,7 @@ static std::vector<std::string> make_contents() {
   { std::string w; for (const char* p = "widestr"; *p; p++) { w += *p; w += '\0'; } c.push_back("xx" + w + "yy alpha_text alpha_text"); }
   { std::string x = "\x22\x35\x28\x29\x3f\x39\x28\x3f\x2e"; c.push_back("pad " + x + " pad reg7ex"); }
   { std::string m; for (int i = 0; i < 60; i++) m += "ab"; c.push_back(m); }
-  c.push_back("MZ not really a pe file"); c.push_back("tiny"); c.push_back(std::string(5000, 'z') + "alpha_text"); c.push_back("abxa abya");
+  c.push_back("MZ not really a pe file"); c.push_back("tiny"); c.push_back("x" + std::string(3000, 'a') + "y"); c.push_back("..xaay.. xaaay"); c.push_back(std::string(5000, 'z') + "alpha_text"); c.push_back("abxa abya");
   return c;
 }
 
@@ -106,7 +107,7 @@ static Opts draw_opts(Rng& rng) {
   o.ext_at_compile = rng.chance(1, 2);
   return o;
 }
-static std::vector<std::string> ext_args() { return {"-d", "ext_i=7", "-d", "ext_s=needle"}; }
+static std::vector<std::string> ext_args() { return {"-d", "ext_i=7", "-d", "ext_s=needle", "-d", "ext_big=4294967396"}; }
 
 // records: a rule line and the string lines ("0x...") that follow it
 static std::multiset<std::string> records(const std::string& out, int* torn = nullptr) {
@@ -153,6 +154,8 @@ static Verdict judge(const InvResult& r, const std::multiset<std::string>& exp_r
   if (r.status == 4) { v.klass = "hang"; v.sig = "cli|" + what + "|hang"; v.detail = "the invocation did not finish within the wall-clock guard"; return v; }
   if (r.status == 1) { v.klass = "deadlock"; v.sig = "cli|" + what + "|deadlock"; v.detail = r.info; return v; }
   if (r.status == 2) { v.klass = "no-progress"; v.sig = "cli|" + what + "|step-budget"; v.detail = "step budget exhausted"; return v; }
+  // without -a the deadline is ~11 days away: a wait that only ends by that timeout is a hang in real life
+  if (r.timed > 0) { v.klass = "no-progress"; v.sig = "cli|" + what + "|terminates-only-by-timeout"; v.detail = std::to_string(r.timed) + " semaphore wait(s) ended only because simulated time was advanced to the scan deadline"; return v; }
   int torn = 0; std::multiset<std::string> got = records(r.out, &torn);
   if (got != exp_records) {
     std::string only_exp, only_got; int ne = 0, ng = 0;
@@ -161,7 +164,11 @@ static Verdict judge(const InvResult& r, const std::multiset<std::string>& exp_r
     std::string kind = ne && ng ? "records-differ" : ne ? "records-missing" : "records-extra";
     v.klass = "output-differs"; v.sig = "cli|" + what + "|" + mode + "|" + kind; v.detail = std::to_string(ne) + " expected record(s) missing, " + std::to_string(ng) + " unexpected; e.g. missing '" + only_exp + "' unexpected '" + only_got + "'"; return v;
   }
-  if (lines(r.err) != exp_err) { v.klass = "diagnostics-differ"; v.sig = "cli|" + what + "|" + mode + "|stderr-differs"; v.detail = "stderr differs from the per-file runs: '" + r.err.substr(0, 300) + "'"; return v; }
+  if (lines(r.err) != exp_err) {
+    std::multiset<std::string> got_err = lines(r.err); std::string oe, og;
+    for (auto& x : exp_err) if (got_err.count(x) < exp_err.count(x)) { oe = x; break; }
+    for (auto& x : got_err) if (exp_err.count(x) < got_err.count(x)) { og = x; break; }
+    v.klass = "diagnostics-differ"; v.sig = "cli|" + what + "|" + mode + "|stderr-differs"; v.detail = "stderr differs from the per-file runs: expected-only '" + oe.substr(0, 250) + "' got-only '" + og.substr(0, 250) + "'"; return v; }
   bool error_printed = r.err.find("error") != std::string::npos;
   if ((r.rc != 0) != error_printed) { v.klass = "exit-status"; v.sig = std::string("cli|") + what + "|exit-status|" + (error_printed ? "zero-although-error-reported" : "nonzero-without-error"); v.detail = "exit status " + std::to_string(r.rc) + ", stderr: '" + r.err.substr(0, 200) + "'"; return v; }
   (void) any_ref_error;
@@ -207,7 +214,7 @@ static void run_case(uint64_t seed, int64_t run, bool thorough, const std::vecto
   // rules pre-compiled by yarac give the same output
   if (rng.chance(1, 3) && r.status == 0) {
     std::string yarc = work + "/rules.yarc"; unlink(yarc.c_str());
-    std::vector<std::string> cav{"yarac"}; if (o.ext_at_compile) for (auto& e : ext_args()) cav.push_back(e); else { cav.push_back("-d"); cav.push_back("ext_i=0"); cav.push_back("-d"); cav.push_back("ext_s=x"); }
+    std::vector<std::string> cav{"yarac"}; if (o.ext_at_compile) for (auto& e : ext_args()) cav.push_back(e); else { cav.push_back("-d"); cav.push_back("ext_i=0"); cav.push_back("-d"); cav.push_back("ext_s=x"); cav.push_back("-d"); cav.push_back("ext_big=0"); }
     cav.push_back(rules_path); cav.push_back(yarc);
     SchedPolicy p1; p1.kind = 2; p1.switch_den[0] = 64; p1.bb_mean = 1000000; p1.max_steps = 50000000;
     InvResult c = run_cli(true, cav, 1, p1, 1); st.c["cli_invocations"]++;
